@@ -320,6 +320,13 @@ write_header(struct archive_write *a, struct archive_entry *entry)
 		ret_final = ARCHIVE_WARN;
 	}
 	/* Include trailing null. */
+	if (len + 1 > 0777777) {
+		/* c_namesize cannot tell where the name ends. */
+		archive_set_error(&a->archive, ENAMETOOLONG,
+		    "Pathname too long");
+		ret_final = ARCHIVE_FAILED;
+		goto exit_write_header;
+	}
 	pathlength = (int)len + 1;
 
 	memset(h, 0, sizeof(h));
@@ -340,17 +347,43 @@ write_header(struct archive_write *a, struct archive_entry *entry)
 	}
 	format_octal(ino & 0777777, h + c_ino_offset, c_ino_size);
 
-	/* TODO: Set ret_final to ARCHIVE_WARN if any of these overflow. */
+	/* A value that overflows its field is stored as the largest one
+	 * the field holds, with a warning. */
 	format_octal(archive_entry_mode(entry), h + c_mode_offset, c_mode_size);
-	format_octal(archive_entry_uid(entry), h + c_uid_offset, c_uid_size);
-	format_octal(archive_entry_gid(entry), h + c_gid_offset, c_gid_size);
-	format_octal(archive_entry_nlink(entry), h + c_nlink_offset, c_nlink_size);
+	if (format_octal(archive_entry_uid(entry), h + c_uid_offset,
+	    c_uid_size)) {
+		archive_set_error(&a->archive, ERANGE,
+		    "Numeric user ID too large");
+		ret_final = ARCHIVE_WARN;
+	}
+	if (format_octal(archive_entry_gid(entry), h + c_gid_offset,
+	    c_gid_size)) {
+		archive_set_error(&a->archive, ERANGE,
+		    "Numeric group ID too large");
+		ret_final = ARCHIVE_WARN;
+	}
+	if (format_octal(archive_entry_nlink(entry), h + c_nlink_offset,
+	    c_nlink_size)) {
+		archive_set_error(&a->archive, ERANGE,
+		    "Link count too large");
+		ret_final = ARCHIVE_WARN;
+	}
 	if (archive_entry_filetype(entry) == AE_IFBLK
-	    || archive_entry_filetype(entry) == AE_IFCHR)
-	    format_octal(archive_entry_rdev(entry), h + c_rdev_offset, c_rdev_size);
-	else
+	    || archive_entry_filetype(entry) == AE_IFCHR) {
+		if (format_octal(archive_entry_rdev(entry), h + c_rdev_offset,
+		    c_rdev_size)) {
+			archive_set_error(&a->archive, ERANGE,
+			    "Device number too large");
+			ret_final = ARCHIVE_WARN;
+		}
+	} else
 	    format_octal(0, h + c_rdev_offset, c_rdev_size);
-	format_octal(archive_entry_mtime(entry), h + c_mtime_offset, c_mtime_size);
+	if (format_octal(archive_entry_mtime(entry), h + c_mtime_offset,
+	    c_mtime_size)) {
+		archive_set_error(&a->archive, ERANGE,
+		    "File modification time out of range");
+		ret_final = ARCHIVE_WARN;
+	}
 	format_octal(pathlength, h + c_namesize_offset, c_namesize_size);
 
 	/* Non-regular files don't store bodies. */
